@@ -185,12 +185,12 @@ def make_client(env, kind, cfg):
         from vlib import subclasses
         kw["client_class"] = subclasses.CLIENT_CLASSES[cfg["client_class"]]
         kw["client_class_how"] = cfg.get("client_class_how", "assign")
-    if kind in ("pooled", "hash-pooled"):
+    if kind in ("pooled", "hash-pooled", "aws-pooled"):
         if "max_pool_size" in cfg:
             kw["max_pool_size"] = cfg["max_pool_size"]
         if "pool_idle_timeout" in cfg:
             kw["pool_idle_timeout"] = cfg["pool_idle_timeout"]
-    if kind.startswith("hash"):
+    if kind.startswith(("hash", "aws")):
         for k in ("retry_attempts", "retry_timeout", "dead_timeout"):
             if k in cfg:
                 kw[k] = cfg[k]
@@ -264,7 +264,7 @@ def interpret(case, observer=None):
             if call.get("advance"):
                 env.clock.advance(call["advance"])
             n0 = len(env.net.log)
-            if case["kind"].startswith("hash") and call["op"]["op"] in HASH_UNSUPPORTED:
+            if case["kind"].startswith(("hash", "aws")) and call["op"]["op"] in HASH_UNSUPPORTED:
                 out = ("skipped", None)       # HashClient does not offer this operation
                 env.ncalls += 1
             else:
